@@ -66,6 +66,8 @@ class N:
             return max(self.n, o) - self.n
         if k == "V":
             return o + FACTOR_ORDER[self.n]
+        if k == "SM":
+            return o
         if k in ("cE", "Ec", "E/c", "neg"):
             return self.a.out(o)
         if k in ("E+c", "c+E", "E-c", "c-E"):
@@ -106,6 +108,8 @@ class N:
             return "Dx<%d>{}" % self.n
         if k == "V":
             return "SplineOperator{env.f%d}" % self.n
+        if k == "SM":
+            return "ScalarMultiplication{%s}" % self.s.text()
         p = self.prec()
         if k == "neg":
             s = "-" + self.a.text(p, False)
@@ -135,6 +139,8 @@ class N:
             return "mx::D(%d)" % self.n
         if k == "V":
             return "mx::V(%d)" % self.n
+        if k == "SM":
+            return self.s.model("K_SCALE", "mx::I()")
         if k == "neg":
             return "mx::neg(%s)" % self.a.model()
         if k in ("sum", "diff", "prod"):
@@ -166,6 +172,7 @@ def add(a, b): return N("sum", a=a, b=b)
 def sub(a, b): return N("diff", a=a, b=b)
 def mul(a, b): return N("prod", a=a, b=b)
 def sc(kind, a, s): return N(kind, s=s, a=a)
+def SM(s): return N("SM", s=s)
 def T(i): return S("T", idx=i)
 def L(kind, v): return S(kind, val=Fraction(v))
 
@@ -203,6 +210,9 @@ def catalogue(exact):
         neg(neg(D(1))), mul(D(2), mul(X(2), V(0))), mul(V(2), V(1)),
         sub(sc("c+E", mul(D(1), V(2)), T(2)), X(3)),
         mul(D(3), X(4)), mul(X(3), D(4)),
+        # the public operator classes constructed directly
+        SM(T(1)), SM(L("int", -4)), mul(SM(L("unsigned", 3)), X(2)),
+        sub(D(1), SM(T(2))),
     ]
     return [e for e in c if e.inner_max() <= MAXOUT + 2]
 
@@ -252,7 +262,7 @@ def random_set(seed, count, exact, maxdepth=4):
     while len(out) < count and tries < 100000:
         tries += 1
         e = rand_expr(rng, rng.randint(1, maxdepth), exact)
-        if e.kind in ("I", "X", "D", "V"):
+        if e.kind in ("I", "X", "D", "V", "SM"):
             continue
         if e.inner_max() > MAXOUT:
             continue
